@@ -11,12 +11,18 @@ def main():
     tmo = 10000
     if "-t" in args:
         i = args.index("-t"); tmo = int(args[i + 1]); del args[i:i + 2]
+    fan = 1
+    if "-j" in args:
+        i = args.index("-j"); fan = int(args[i + 1]); del args[i:i + 2]
+    only = None
+    if "-k" in args:
+        i = args.index("-k"); only = args[i + 1]; del args[i:i + 2]
     R._setup()
     for name in args:
         if name.startswith("lemma:"):
             task = dict(kind="lemma", name=name[6:], prop="DEV", timeout_ms=tmo)
         else:
-            task = dict(kind="fn", name=name, prop="DEV", timeout_ms=tmo)
+            task = dict(kind="fn", name=name, prop="DEV", timeout_ms=tmo, fanout=fan, only=only)
         t0 = time.time()
         out = R.run_task(task)
         if out["error"]:
